@@ -231,6 +231,30 @@ macro_rules! matrix_like {
             let old = a.replace_col(c, newc);
             $ctx.misc.rec(old == m[c] && a[c] == newc && (0..$n).all(|k| k == c || a[k] == m[k]), || format!("{}.replace_col({})", $tn, c));
         }
+        $ctx.misc.rec(panics(|| { let mut a = m; a.replace_col($n, $V::from_value(extra)) }), || format!("{}.replace_col out of range must panic", $tn));
+        // swap_rows / swap_columns / swap_elements over every index combination 0..=n+1: in range they exchange exactly
+        // the named rows / columns / elements, out of range (in any position, also when it aliases storage) they panic
+        // (skipped under miri: ptr::swap with two &mut into self, DESIGN 0.5)
+        if !cfg!(miri) {
+            for i in 0..($n + 2) { for j in 0..($n + 2) {
+                let inr = i < $n && j < $n;
+                let mut want = nested; if inr { for c in 0..$n { let t = want[c][i]; want[c][i] = want[c][j]; want[c][j] = t; } }
+                let okr = if inr { let mut a = m; a.swap_rows(i, j); let b: [[$S; $n]; $n] = a.into(); b == want } else { panics(|| { let mut a = m; a.swap_rows(i, j); a }) };
+                $ctx.misc.rec(okr, || format!("{}.swap_rows({}, {}) {}", $tn, i, j, if inr { "exchanges exactly these rows" } else { "must panic (row index out of range)" }));
+                let mut wantc = nested; if inr { wantc.swap(i, j); }
+                let okc = if inr { let mut a = m; a.swap_columns(i, j); let b: [[$S; $n]; $n] = a.into(); b == wantc } else { panics(|| { let mut a = m; a.swap_columns(i, j); a }) };
+                $ctx.misc.rec(okc, || format!("{}.swap_columns({}, {}) {}", $tn, i, j, if inr { "exchanges exactly these columns" } else { "must panic (column index out of range)" }));
+                for k in 0..($n + 2) { for l in 0..($n + 2) {
+                    let inr = i < $n && j < $n && k < $n && l < $n;
+                    let oke = if inr {
+                        let mut w = nested; let t = w[i][j]; w[i][j] = w[k][l]; w[k][l] = t;
+                        let mut a = m; a.swap_elements((i, j), (k, l)); let b: [[$S; $n]; $n] = a.into(); b == w
+                    } else { panics(|| { let mut a = m; a.swap_elements((i, j), (k, l)); a }) };
+                    $ctx.misc.rec(oke, || format!("{}.swap_elements(({}, {}), ({}, {})) {}", $tn, i, j, k, l,
+                        if inr { "exchanges exactly these elements" } else { "must panic like m[c][r] (index out of range)" }));
+                }}
+            }}
+        }
         // mint (column matrices)
         let mm: mint::$Mint<$S> = m.into();
         let mb: $M<$S> = mm.into();
